@@ -21,19 +21,19 @@ func maxDecodeLen() int {
 // nopOut is an Outputter that discards everything (descriptor walks).
 type nopOut struct{}
 
-func (nopOut) StartObject()       {}
-func (nopOut) EndObject()         {}
-func (nopOut) StartArray()        {}
-func (nopOut) EndArray()          {}
-func (nopOut) NameField(string)   {}
-func (nopOut) Int64(int64)        {}
-func (nopOut) Uint64(uint64)      {}
-func (nopOut) Float64(float64)    {}
-func (nopOut) Float32(float32)    {}
-func (nopOut) String(string)      {}
-func (nopOut) Bool(bool)          {}
-func (nopOut) Time(time.Time)     {}
-func (nopOut) Raw(string)         {}
+func (nopOut) StartObject()     {}
+func (nopOut) EndObject()       {}
+func (nopOut) StartArray()      {}
+func (nopOut) EndArray()        {}
+func (nopOut) NameField(string) {}
+func (nopOut) Int64(int64)      {}
+func (nopOut) Uint64(uint64)    {}
+func (nopOut) Float64(float64)  {}
+func (nopOut) Float32(float32)  {}
+func (nopOut) String(string)    {}
+func (nopOut) Bool(bool)        {}
+func (nopOut) Time(time.Time)   {}
+func (nopOut) Raw(string)       {}
 
 var _ plenccodec.Outputter = nopOut{}
 
